@@ -172,6 +172,9 @@ fn child_main(args: &BTreeMap<String, String>) -> ! {
     let mut api_calls = 0u64;
     let mut rr = Rng::new(seed ^ 0xfeed);
     let mut maybe_later: Option<(DocSetState, Option<String>)> = None;
+    // operations of the transaction in progress (what a client would play again after a failed
+    // commit)
+    let mut cur_txn: Vec<Op> = vec![];
     for op in &ops {
         api_calls += 1;
         let would = ex.model.would_commit();
@@ -192,12 +195,19 @@ fn child_main(args: &BTreeMap<String, String>) -> ! {
             eprintln!("op {} -> ok={} err={:?} seq={} files={:?}", op.kind(), out.ok, out.err, mon.seq(), mon.list_files().len());
         }
         if out.ok {
+            match op {
+                Op::Add(_) | Op::DeleteTerm(_) | Op::DeleteQuery(_) | Op::Batch(_) => cur_txn.push(op.clone()),
+                Op::Rollback | Op::Reopen { .. } | Op::PrepCommit { abort: true, .. } => cur_txn.clear(),
+                _ => {}
+            }
             if is_commit {
                 ok_commit_returns.push((mon.seq(), ex.model.commits.len() - 1));
                 maybe_later = None;
+                cur_txn.clear();
             }
             continue;
         }
+        let committed_keys_at_failure: BTreeSet<u64> = ex.model.committed.keys().copied().collect();
         surfaced.push(format!("{}", op.kind()));
         if mode == "short" && !matches!(op, Op::Merge { .. }) {
             viol.push(("short-write-made-an-api-call-fail".into(), json!({"op": op.kind(), "err": out.err})));
@@ -317,6 +327,52 @@ fn child_main(args: &BTreeMap<String, String>) -> ! {
         }
         // the old updater is killed now: one last look, then the limbo is over
         check_late_publish(&mon, &mut ex, &mut maybe_later, &mut viol, "after recovery");
+        // The failed commit left no trace in what is published and the fault is over: the client
+        // plays the same transaction again on the new writer (same opstamps as the first time;
+        // files of the failed attempt may still lie around). It has to go through.
+        let untouched = ex.model.committed.len() == committed_keys_at_failure.len()
+            && ex.model.committed.keys().all(|k| committed_keys_at_failure.contains(k));
+        if is_commit && mode == "once" && maybe_later.is_some() && untouched && ex.writer.is_some() && rr.bool() {
+            let mut replay_ok = true;
+            for rop in &cur_txn {
+                match guarded(|| ex.step(rop)) {
+                    Ok(o) if o.ok => {}
+                    Ok(o) => {
+                        viol.push(("retry-of-the-failed-transaction:operation-failed".into(), json!({"op": rop.kind(), "err": o.err})));
+                        replay_ok = false;
+                        break;
+                    }
+                    Err(p) => {
+                        if !p.in_harness() {
+                            viol.push((format!("panic-under-fault:{}", p.sig()), json!({"op": rop.kind(), "msg": p.message})));
+                        }
+                        replay_ok = false;
+                        break;
+                    }
+                }
+            }
+            if replay_ok {
+                match guarded(|| ex.step(&Op::Commit)) {
+                    Ok(o) if o.ok => {
+                        ok_commit_returns.push((mon.seq(), ex.model.commits.len() - 1));
+                        surfaced.push("retry-committed".into());
+                    }
+                    Ok(o) => viol.push((
+                        "retry-of-the-failed-transaction:commit-failed-after-the-fault-was-over".into(),
+                        json!({"err": o.err, "n_ops": cur_txn.len()}),
+                    )),
+                    Err(p) => {
+                        if !p.in_harness() {
+                            viol.push((format!("panic-under-fault:{}", p.sig()), json!({"op": "commit", "msg": p.message})));
+                        }
+                    }
+                }
+            }
+            if !replay_ok || ex.writer.is_none() {
+                ex.abandon_writer();
+            }
+        }
+        cur_txn.clear();
         maybe_later = None;
     }
     let fired = mon.faults_fired();
